@@ -18,6 +18,7 @@ class IBM:
         self.state = modules["state"]
         self.timer = modules["time"]
         self.kill = _sched(kwargs.get("kill"))
+        self.kill_tag = _sched(kwargs.get("kill_tag"))  # by release-row tag `rid`
         self.deactivate = _sched(kwargs.get("deactivate"))
         self.activate = _sched(kwargs.get("activate"))
         self.age = kwargs.get("age", False)
@@ -55,6 +56,8 @@ class IBM:
             st["alive"] = st["alive"] & (st["age"] < self.lifetime - 0.5)
         if step in self.kill:
             st["alive"] = st["alive"] & ~self._sel(self.kill[step])
+        if step in self.kill_tag:
+            st["alive"] = st["alive"] & ~np.isin(st["rid"], np.asarray(self.kill_tag[step], dtype=int))
         if step in self.deactivate:
             st["active"] = st["active"] & ~self._sel(self.deactivate[step])
         if step in self.activate:
